@@ -597,3 +597,6 @@ def run(ctx):
     rule_whole_domain(ctx)
     rule_additional_complement(ctx)
     rule_type_predicates(ctx)
+    # R1.10: a keyword's verdict may depend on exactly the sibling names the draft gives it (necessary for spec agreement)
+    from .c10 import rule_read_set
+    rule_read_set(ctx, "R1.10")
